@@ -442,9 +442,21 @@ def r01_1(ctx) -> None:
         idx_name = "_no_index_"
     ev = AbsEval(_IntOps())
     table = {}
+    pos_expr = entries[0].elts[1]
+    par = parents.get(id(entries[0]))
+    if isinstance(pos_expr, ast.Call) and norm(pos_expr.func).split(".")[-1] == "len" and len(pos_expr.args) == 1 \
+            and isinstance(par, ast.Call) and isinstance(par.func, ast.Attribute) and par.func.attr == "append" \
+            and norm(par.func.value) == norm(pos_expr.args[0]):
+        # ``heap.append((holder, len(heap)))``: the position is the number of entries before this one
+        pos_expr = ast.Name(id=idx_name, ctx=ast.Load())
     for reverse in (False, True):
-        p_i = ev.eval(entries[0].elts[1], {idx_name: 1, flag[0]: reverse})
-        p_j = ev.eval(entries[0].elts[1], {idx_name: 2, flag[0]: reverse})
+        p_i = ev.eval(pos_expr, {idx_name: 1, flag[0]: reverse})
+        p_j = ev.eval(pos_expr, {idx_name: 2, flag[0]: reverse})
+        if not isinstance(p_i, int) or not isinstance(p_j, int):
+            # the order algebra cannot read how positions are numbered here; the merge table R01.15 decides the order of ties
+            ctx.note(f"R01.1: the position `{norm(entries[0].elts[1])}` of a heap entry of merge could not be evaluated; "
+                     "the order of ties is decided by the merge table R01.15 alone")
+            return
         for outcome in ("LT", "EQ", "GT"):
             ctx.count("merge_cells")
             # entry_i < entry_j ?   (A = holder of iterable i, B = holder of iterable j)
